@@ -404,6 +404,34 @@ def separateOut (solve : Solver α) (self : St α) (Hself Hother : α)
 
 end
 
+/-! ### the solver and the flash as recorded from a run
+
+The driver instantiates the parameters `Solver` / `VleRun` with these functions of the calls the
+real run made (`near` = "the same number up to the rounding of a sum"): call `k` is answered with
+the recorded temperature only when the model asks it for the recorded phase state and (nearly) the
+recorded target, otherwise it "raised".  So the model's answers depend on what it asks, and the
+solver hypotheses of the theorems (`SolverSound`, `VleSound`) are met by a run exactly when the
+recorded calls are sound one by one (`recordedSolver_sound`, `recordedVle_sound`). -/
+
+/-- one recorded solver call: the phase state and target it was made with, and what it returned -/
+structure RecCall (α : Type) where
+  ph : PhaseState
+  target : α
+  T : Option α
+
+def recordedSolver {α : Type} (near : α → α → Bool) (calls : List (RecCall α)) : Solver α := fun k ph x =>
+  match calls[k]? with
+  | some c => if c.ph == ph && near c.target x then c.T else none
+  | none => none
+
+/-- the recorded flash: what it was asked for and what it left (`none`: it raised) -/
+def recordedVle {α : Type} [BEq α] (near : α → α → Bool) (rec : Option (VleSpec α × Option (VleRes α))) : VleRun α :=
+  fun spec =>
+    match rec, spec with
+    | some (.HP H' P', r), .HP H P => if near H' H && P' == P then r else none
+    | some (.TP T' P', r), .TP T P => if T' == T && P' == P then r else none
+    | _, _ => none
+
 /-! ### the iteration maps of `thermosteam/mixture/mixture.py`
 
 `flx.aitken` iterates these maps to a fixed point (tolerance `T_tol = 1e-6`) and a secant polish
